@@ -13,7 +13,7 @@ DEMOS="$*"
 [ -z "$DEMOS" ] && DEMOS=$(cd $SRC && ls *_test.go 2>/dev/null)
 for d in $DEMOS; do cp $SRC/$d $WT/$PKG/ || exit 2; done
 cd $WT
-run_demo() { go test -vet=off -count=1 -run "$PAT" ./$PKG/ >/tmp/cf-$ID.demo.log 2>&1; }
+run_demo() { go test $DEMOFLAGS -vet=off -count=1 -run "$PAT" ./$PKG/ >/tmp/cf-$ID.demo.log 2>&1; }
 run_demo; r0=$?
 if [ $r0 -ne 0 ]; then run_demo; r0=$?; fi
 git apply $SRC/patch.diff || { echo "SEED $ID: patch does not apply"; exit 1; }
